@@ -37,6 +37,15 @@ for _p, _t in (('C08', 'Harris-Michael set/map'), ('C09', 'Harris-Michael iterat
        text='%s: the deciding part so far is a schedule search over the real code (random, PCT, preemption-bounded DFS, prefix sweeps, sequential op sequences; quarantine and reuse allocator modes; several reclaimers) with exact oracles: linearizability of every explored history against the set/map specification, final traversal and lock-free probes, iterator yield rules, use-after-free / double-free / lost-lock detection. The Coq obligations of this property are still placeholders (a monotonicity / positivity lemma); the structural theorems over a list/bucket model are work in progress.' % _t,
        note='Exploration with exact oracles, not a proof: the Coq part does not yet carry the property. SC interleavings only.',
        technique='schedule search with exact linearizability and memory oracles (Coq model pending)', design='5/' + _p, level='exploration')
+CLAIMED['C15'] = dict(
+   text='Machine-checked theorems (Coq 8.16.1) about marked_ptr generated from marked_ptr.hpp and utils.hpp, generic in MarkBits (1..32) and MaxUpperMarkBits: get/mark round trip, representation equality = (pointer, trimmed mark) equality, bit layout, rotate round trip - for all marks and all canonical pointers. The generated functions are also run against the compiled C++ for 14 instantiations on every run. The guard_ptr algebra (copy/move/swap/self-assignment/double reset, acquire / acquire_if_equal snapshot rules) is explored for every reclaimer with bounded random single-thread sequences and a concurrently replacing thread.',
+   note='Trusted: Coq kernel, translator (mitigated by the differential run). The guard algebra part is exploration, not proof.',
+   technique='Coq proof over generated marked_ptr arithmetic + differential run; schedule search for the guard algebra', design='5/C15')
+for _p, _t in (('C01', 'safe reclamation'), ('C02', 'retired objects destroyed exactly once'), ('C17', 'dynamic threads'), ('C18', 'hazard slots')):
+    CLAIMED[_p] = dict(
+       text='%s: decided so far by a schedule search over the real reclaimers (8 configurations in the quick tier, 20 in the thorough tier: static/dynamic HP and HE with K=1..3, EBR/NEBR/DEBRA and four further generic_epoch_based configurations, QSBR, Stamp-it, LFRC with and without thread-local free list) driven by a generic protocol-conforming client; strategies: random, PCT, preemption-bounded DFS, sequential generations, and a three-party phase sweep (holder / scanner-or-epoch-advancer / retire-and-exit); oracles: guarded node alive on every dereference, quarantine allocator (use-after-free, double free), census after a public-API flush, slot-exhaustion rules, bookkeeping growth. The Coq obligations of this property are still placeholders; the reclaimer models are work in progress.' % _t,
+       note='Exploration with exact oracles, not a proof yet. SC interleavings only (fences: C03).',
+       technique='schedule search with memory-safety / census / slot oracles (Coq model pending)', design='5/' + _p, level='exploration')
 NOT_YET = {}
 props = [json.loads(l) for l in open(os.path.join(V, 'properties.jsonl'))]
 checks, na = [], []
